@@ -19,14 +19,13 @@ from pegen.tokenizer import Tokenizer
 
 CONTEXTS = ["{a}", "x={a}", "({a} NAME)", "{a}?", "[{a} NAME]", "{a}*", "{a}+", "','.{a}+", "{a}.NAME+", "&{a}", "!{a}",
             "&&{a}", "&&({a} NAME)", "(NAME | {a})", "((({a})))", "x=({a})", "[{a}]*"]
-ATOMS_BAD = ["undefined_rule", "NAMEE", "_undefined", "_tmp_7", "__"]
+ATOMS_BAD = ["undefined_rule", "NAMEE", "_undefined", "_tmp_7", "__", "LPAR", "ERRORTOKEN", "COMMENT"]   # incl. token kinds no parser method matches
 
 
 def tokens_set() -> list[str]:
-    s = set(T.tok_name.values())
-    s.add("SOFT_KEYWORD")
-    s.update(["FSTRING_START", "FSTRING_MIDDLE", "FSTRING_END"])
-    return sorted(s)
+    """the token kinds the real generator hands to its reference checker (read off a generator instance, not re-derived)"""
+    g = g2c.read_grammar("start: NAME\n")
+    return sorted(PythonParserGenerator(g, io.StringIO()).tokens)
 
 
 def classify(g):
@@ -228,6 +227,20 @@ def run(chk: common.Check, tier: str):
         chk.oblige(f"instance condition of C13_every_reference_resolves on {len(rcases)} accepted grammars: in the generated "
                    "module every called method exists or is a runtime primitive and every expect() argument is a literal",
                    not bad, json.dumps([rdescs[i] for i in bad[:3]]))
+    # hypotheses of the end-to-end theorem C13_accepted_grammars_resolve (accepted by the up-front check => every reference of
+    # the generated module resolves): every token kind the real generator accepts is one the call maker knows; literals are quoted
+    (common.GEN / "C13" / "TokInst.v").write_text(
+        rm.prelude(tokens_set()) + "From Pegen Require Import Proofs.GenRefs Proofs.GenAccepted.\n"
+        "Lemma tokens_known : forallb is_tok TOKENS = true.\nProof. vm_compute. reflexivity. Qed.\n")
+    rc, out = common.coqc(common.GEN / "C13" / "TokInst.v")
+    chk.oblige("instance lemma: every token kind in the real generator's token set (read off a generator instance: "
+               f"{len(tokens_set())} kinds) is one the call maker turns into a primitive or an expect() -- with it, "
+               "C13_accepted_grammars_resolve needs no hypothesis on the grammar beyond acceptance", rc == 0, out[-1500:])
+    sbad = common.run_cases(chk, "strs", rm.prelude(tokens_set()) + "From Pegen Require Import Proofs.GenRefs Proofs.GenAccepted.\n",
+                            "grammar * N", rcases, "fun c => strs_rules (fst c)", shard=150)
+    if sbad is not None:
+        chk.oblige(f"instance condition: the string leaves of {len(rcases)} accepted grammars carry their quotes (what the reader builds)",
+                   not sbad, json.dumps([rdescs[i] for i in sbad[:3]]))
     # a parser generated a SECOND time from the same grammar object must resolve every reference as well
     again = [(t, d) for t, d in to_run if any(c in t for c in "(*+?[.")][:60 if tier == "quick" else 600]
     results2 = common.run_parsers([{"grammar": t, "inputs": INPUTS, "regenerate": True} for t, _ in again])
@@ -244,8 +257,7 @@ def run(chk: common.Check, tier: str):
             chk.oblige(f"correspondence K-check: Analysis/RuleCheck.v (driven by the extracted __iter__ table) agrees with "
                        f"PythonParserGenerator's up-front checks on {len(cases)} grammars (which error, which name)",
                        not failing, json.dumps([descs[i] for i in failing[:4]]))
-    chk.assumptions += ["the set of known token names is token.tok_name of the running interpreter plus SOFT_KEYWORD and "
-                        "the three FSTRING names, as python_generator.py passes them"]
+    chk.assumptions += ["the set of known token names is read off a real generator instance (gen.tokens)"]
 
 
 def run_cases_q():
